@@ -246,6 +246,22 @@ CO_ERR COCSdoRequestDownload(CO_CSDO *csdo,
  */
 void COCSdoInit(CO_CSDO *csdo, struct CO_NODE_T *node);
 
+/*! \brief
+ *
+ *   This function ends all SDO client transfers which are in progress
+ *   (the application callback reports the abort code 0800 0022h) and
+ *   initializes the SDO clients again. It is used when the communication
+ *   is reset.
+ *
+ * \param csdo
+ *   Reference to SDO client
+ *
+ * \param node
+ *   Reference to parent CANopen node
+ *
+ */
+void COCSdoClear(CO_CSDO *csdo, struct CO_NODE_T *node);
+
 /*! \brief  CHECK FOR RESPONSE TO SDO CLIENT
 *
 *    This function checks the given frame to be a response to SDO
